@@ -57,13 +57,11 @@ where
         let x = dataset.records();
         let y = dataset.as_single_targets();
 
-        // If the ratio of the variance between dimensions is too small, it will cause
-        // numerical errors. We address this by artificially boosting the variance
-        // by `epsilon` (a small fraction of the variance of the largest feature)
-        let epsilon = self.var_smoothing() * *x.var_axis(Axis(0), F::zero()).max()?;
-
+        // The stored variances carry the smoothing term of the data seen so far; remove it
+        // before pooling the new batch in
         let mut model = match model_in {
             Some(mut temp) => {
+                let epsilon = temp.epsilon;
                 temp.class_info
                     .values_mut()
                     .for_each(|x| x.sigma -= epsilon);
@@ -71,6 +69,7 @@ where
             }
             None => GaussianNb {
                 class_info: HashMap::new(),
+                epsilon: F::zero(),
             },
         };
 
@@ -97,19 +96,35 @@ where
             class_info.class_count += nclass;
         }
 
-        // We add back the epsilon previously subtracted for numerical
-        // calculation stability
+        let class_count_sum = model
+            .class_info
+            .values()
+            .map(|x| x.class_count)
+            .sum::<usize>();
+
+        // If the ratio of the variance between dimensions is too small, it will cause
+        // numerical errors. We address this by artificially boosting the variance
+        // by `epsilon` (a small fraction of the variance of the largest feature). The variance
+        // is that of all the data seen so far, recovered from the per-class statistics (classes
+        // taken in sorted order, so that the sums do not depend on the hash map's order).
+        let mut classes = model.class_info.iter().collect::<Vec<_>>();
+        classes.sort_by(|a, b| a.0.cmp(b.0));
+        let mut mean = Array1::<F>::zeros(x.ncols());
+        let mut second_moment = Array1::<F>::zeros(x.ncols());
+        for (_, info) in classes {
+            let weight = F::cast(info.class_count) / F::cast(class_count_sum);
+            mean += &(&info.theta * weight);
+            second_moment += &((&info.sigma + &(&info.theta * &info.theta)) * weight);
+        }
+        let variance = second_moment - &mean * &mean;
+        let epsilon = self.var_smoothing() * *variance.max()?;
+        model.epsilon = epsilon;
         model
             .class_info
             .values_mut()
             .for_each(|x| x.sigma += epsilon);
 
         // We update the priors
-        let class_count_sum = model
-            .class_info
-            .values()
-            .map(|x| x.class_count)
-            .sum::<usize>();
 
         for info in model.class_info.values_mut() {
             info.prior = F::cast(info.class_count) / F::cast(class_count_sum);
@@ -237,6 +252,8 @@ where
 #[derive(Debug, Clone, PartialEq)]
 pub struct GaussianNb<F: PartialEq, L: Eq + Hash> {
     class_info: HashMap<L, GaussianClassInfo<F>>,
+    /// smoothing term currently contained in every stored variance
+    epsilon: F,
 }
 
 #[cfg_attr(
